@@ -163,6 +163,7 @@ func c06Verify(sig *bls.Sign, pub *bls.PublicKey, msg []byte) bool { return sig.
 type c06Domains struct {
 	asked []string
 	fail  bool // the beacon node cannot be reached: every domain request fails
+	yield bool // the request to the beacon node is a scheduling point (units with two requests at once)
 }
 
 type c06Fork struct {
@@ -189,6 +190,9 @@ func c06ProviderDomain(t phase0.DomainType, v phase0.Version) (phase0.Domain, er
 
 func (d *c06Domains) Domain(_ context.Context, t phase0.DomainType, epoch phase0.Epoch) (phase0.Domain, error) {
 	d.asked = append(d.asked, fmt.Sprintf("Domain(%s, epoch %d)", c06DomainName(t), epoch))
+	if d.yield {
+		mc.Yield()
+	}
 	if d.fail {
 		return phase0.Domain{}, errors.New("beacon node unavailable")
 	}
@@ -1197,7 +1201,8 @@ func c06Units(tier string) []hx.Unit {
 	}
 	// two requests at the same time on one signer instance (two duty jobs of one slot), local accounts, under
 	// every interleaving with one preemption: each signature is over its own request's signing root
-	for _, pair := range [][2]string{{"randao", "randao"}, {"randao", "aggregate-and-proof"}, {"proposal", "registration"}} {
+	for _, pair := range [][2]string{{"randao", "randao"}, {"randao", "aggregate-and-proof"}, {"proposal", "registration"},
+		{"slot-selection", "sync-message"}, {"slot-selection", "slot-selection"}, {"sync-selection", "contribution-and-proof"}} {
 		pair := pair
 		rqs := [2]*c06Req{{}, {}}
 		var eps [2]*c06EP
@@ -1216,7 +1221,7 @@ func c06Units(tier string) []hx.Unit {
 			u.Bound = 2
 		}
 		u.Body = func() {
-			dp := &c06Domains{}
+			dp := &c06Domains{yield: true}
 			svc, err := standardsigner.New(context.Background(), standardsigner.WithLogLevel(zerolog.Disabled), standardsigner.WithMonitor(nullmetrics.New()), standardsigner.WithClientMonitor(nullmetrics.New()),
 				standardsigner.WithSpecProvider(&specProvider{m: baseSpec(12*time.Second, c06SlotsPerEpoch)}), standardsigner.WithDomainProvider(dp))
 			must(err)
